@@ -451,6 +451,20 @@ def mutate_tokens(tokens, rng):
     if k == 5:
         t[i] = rng.choice(INSERTABLE)
         return t, "replace"
+    if k == 6 and rng.random() < 0.4:
+        # empty a bracket pair: "( ... )" -> "( )"
+        opens = [j for j, x in enumerate(t) if x[1] in ("(", "{", "[")]
+        if opens:
+            j = rng.choice(opens)
+            close = {"(": ")", "{": "}", "[": "]"}[t[j][1]]
+            depth = 0
+            for m in range(j, len(t)):
+                if t[m][1] == t[j][1]:
+                    depth += 1
+                elif t[m][1] == close:
+                    depth -= 1
+                    if depth == 0:
+                        return t[:j + 1] + t[m:], "empty-pair"
     if k == 6 and rng.random() < 0.5:
         idx = [j for j, x in enumerate(t) if x[0] == W and j > 0 and t[j - 1][1] in (":", "=", "[")]
         if idx:
@@ -526,3 +540,13 @@ def token_sequences(maxlen):
 
 
 FLAG_TRIPLES = [(a, b, c) for a in (False, True) for b in (False, True) for c in (False, True)]
+
+
+LINE_BREAKS = ["\n", "\r", "\r\n", "\u2028", "\u2029", "\x85", "\x0b", "\x0c", "\x1c", "\x1e"]
+
+
+def string_with_break(rng):
+    """a quoted string with a raw line break / separator character somewhere inside"""
+    s = gen_quoted(rng)
+    i = rng.randrange(1, len(s))
+    return s[:i] + rng.choice(LINE_BREAKS) + s[i:]
